@@ -166,6 +166,7 @@ def sensitivity(argv):
     ap.add_argument("--skip-baseline", action="store_true")
     ap.add_argument("--json", default="")
     args = ap.parse_args(argv)
+    args.dir = os.path.abspath(args.dir)
     patches = sorted(glob.glob(os.path.join(args.dir, "*.patch")) +
                      glob.glob(os.path.join(args.dir, "*", "patch.diff")))
     patches = [p for p in patches if args.only in p]
